@@ -2,7 +2,7 @@
    [report m flt] is calculate_metamodel_metrics with an optional filter; [metric m meth] one entry. *)
 From Coq Require Import List Bool String ZArith Permutation.
 From FM Require Import Base.Result Base.Str Model.Ast Model.FM Model.Ctc Model.Queries Model.Ops Model.Metrics
-     Gen.Tables_metrics Proofs.C18Facts Proofs.C17Facts.
+     Gen.Tables_metrics Proofs.C18Facts Proofs.C17Facts Proofs.C16Facts Model.PyRt Gen.Src_metrics Proofs.SrcMetricsFacts.
 Import ListNotations.
 Local Open Scope list_scope.
 
@@ -99,3 +99,28 @@ Example C17_nonvacuous :
   /\ Forall (fun c => node_wf (c_ast c) = true /\ exists parts, split_asts (c_ast c) = Ok parts) (ctcs ex_model).
 Proof. exact ex_model_hypotheses. Qed.
 Print Assumptions C17_nonvacuous.
+
+(* ---- about the TRANSLATED SOURCE of fm_metrics.py (Gen/Src_metrics.v, regenerated on every run; DESIGN §10): the class
+   FMMetrics as a state record, its 40 @metric_method methods, the cached fields filled at the start of
+   calculate_metamodel_metrics and the collection of the decorated methods.  For every model with distinct feature names whose
+   relations have children, and WHATEVER state the operation object is in (only its filter is read: the "any sequence of
+   models analysed one after another" part of the property), the translated calculate_metamodel_metrics returns the model's
+   report, entry for entry (name, result, size, ratio, parent, level), errors included — so every theorem above is about
+   what the code computes. ---- *)
+Theorem C17_source_report : forall st m, NoDup (names (root m)) -> rels_nonempty (root m) ->
+  exists n0, forall fuel, (n0 <= fuel)%nat ->
+    py_FMMetrics_calculate_metamodel_metrics fuel st m = rmap (map conv) (report m (FMMetrics_filter st)).
+Proof. exact src_metrics_report. Qed.
+Print Assumptions C17_source_report.
+
+(* two operation objects with the same filter, in any two states, give the same report for a model *)
+Theorem C17_source_history : forall st st' m, NoDup (names (root m)) -> rels_nonempty (root m) ->
+  FMMetrics_filter st = FMMetrics_filter st' ->
+  exists n0, forall fuel, (n0 <= fuel)%nat ->
+    py_FMMetrics_calculate_metamodel_metrics fuel st m = py_FMMetrics_calculate_metamodel_metrics fuel st' m.
+Proof.
+  intros st st' m Hn Hr Hf. destruct (src_metrics_report st m Hn Hr) as (n1 & H1).
+  destruct (src_metrics_report st' m Hn Hr) as (n2 & H2). exists (Nat.max n1 n2). intros fuel Hfu.
+  rewrite H1, H2, Hf; [reflexivity| |]; eapply Nat.le_trans; try exact Hfu; [apply Nat.le_max_r|apply Nat.le_max_l].
+Qed.
+Print Assumptions C17_source_history.
